@@ -32,6 +32,14 @@ def same(a, b, exact):
     return True
 
 
+def respell(t, m):
+    """the caller may give a projection as a tuple, a list or (one attribute) a bare string: all documented short-hands"""
+    Q, y, s, p = t
+    ps = m.get('pspell', 'tuple')
+    p2 = list(p) if ps == 'list' else (p[0] if ps == 'str' and len(p) == 1 else p)
+    return (Q, y, s, p2)
+
+
 def snapshot_inputs(ms, zeros):
     def arr(Q):
         if Q is None:
@@ -41,15 +49,20 @@ def snapshot_inputs(ms, zeros):
         if isinstance(Q, np.ndarray):
             return Q.copy()
         return 'operator'
-    return ([(arr(Q), np.array(y, copy=True), float(s), tuple(p)) for Q, y, s, p in ms], copy.deepcopy(zeros))
+    return ([(arr(Q), np.array(y, copy=True), float(s), copy.deepcopy(p), t) for t in ms for Q, y, s, p in [t]], copy.deepcopy(zeros))
 
 
 def inputs_equal(snap, ms, zeros):
     s_ms, s_z = snap
     if len(s_ms) != len(ms) or s_z != zeros:
         return False
-    for (Q0, y0, s0, p0), (Q, y, s, p) in zip(s_ms, ms):
-        if tuple(p) != p0 or float(s) != s0 or not np.array_equal(np.asarray(y), y0):
+    for (Q0, y0, s0, p0, t0), t in zip(s_ms, ms):
+        if t is not t0:
+            return False                      # the caller's list must still hold the caller's own entries
+        Q, y, s, p = t
+        if type(p) is not type(p0) or p != p0 or float(s) != s0 or not np.array_equal(np.asarray(y), y0):
+            return False
+        if (Q0 is None) != (Q is None):
             return False
         if isinstance(Q0, np.ndarray):
             Qn = Q.toarray() if hasattr(Q, 'toarray') else Q
@@ -68,6 +81,8 @@ def main(chk):
         attrs, sizes = base['attrs'], base['sizes']
         cfg = dict(zip(attrs, sizes))
         dom = Domain(attrs, sizes)
+        for m in base['ms']:
+            m['pspell'] = rng.choice(['tuple', 'tuple', 'list'] + (['str'] if len(m['proj']) == 1 else []))
         zeros = c08.zero_spec(rng, base) if rng.random() < 0.3 else {}
         warm = rng.random() < 0.3
         iters = rng.choice([1, 5, 30])
@@ -91,6 +106,19 @@ def main(chk):
             engine = rng.choice(['MD', 'MD', 'RDA', 'IG'])
             total = rng.choice([None, float(base['N']), round(1.1 * base['N'], 1)])
             calls.append((ms, engine, total))
+        if h % 7 == 0 and len(attrs) >= 3:
+            # directed history: warm start + structural zeros + a list that SHRINKS, so that the maximal clique which hosted the zero
+            # clique in the previous model disappears (the zeros must then come from the specification again, not from the old parameters)
+            big = tuple(rng.sample(attrs, 3)); small = tuple(rng.sample(list(big), 2))
+            def mk(proj):
+                p = math.prod(cfg[a] for a in proj); mv = np.array([rng.random() + 0.2 for _ in range(p)]); mv = mv * base['N'] / mv.sum()
+                return dict(proj=proj, Q=np.eye(p), y=mv + np.array([rng.gauss(0, 1.0) for _ in range(p)]), sigma=1.0, kind='identity', spelling='dense', mv=mv, pspell='tuple')
+            mb, msm = mk(big), mk(small)
+            zc = tuple(rng.sample(list(small), rng.randint(1, 2)))
+            zeros = {zc: [tuple(rng.randrange(cfg[a]) for a in zc)]}
+            warm = True; iters = 30
+            calls = [([mb], rng.choice(['MD', 'RDA', 'IG']), float(base['N'])), ([msm], 'MD', float(base['N']))]
+            ncalls = 2; chk.count('directed.shrinking-list-with-zeros')
         info = dict(attrs=attrs, sizes=sizes, warm_start=warm, iters=iters, structural_zeros={''.join(k): v for k, v in zeros.items()},
                     calls=[dict(engine=e, total=t, measurements=[dict(proj=list(m['proj']), kind=m['kind'], sigma=m['sigma']) for m in ms]) for ms, e, t in calls])
         chk.count('warm' if warm else 'cold'); chk.count('calls=%d' % ncalls)
@@ -99,7 +127,7 @@ def main(chk):
                 eng = FactoredInference(dom, iters=iters, structural_zeros=copy.deepcopy(zeros), warm_start=warm)
                 held = []      # (model, answers at return time, exact?)
                 for k, (ms, engine, total) in enumerate(calls):
-                    mlist = [infgen.spelled(m) for m in ms]
+                    mlist = [respell(infgen.spelled(m), m) for m in ms]
                     snap = snapshot_inputs(mlist, zeros)
                     model = eng.estimate(mlist, total=total, engine=engine)
                     now = answers(model, attrs, queries)
@@ -110,7 +138,7 @@ def main(chk):
                         chk.violation(dict(kind='caller-inputs-modified', engine=engine), 'estimate modified the caller\'s measurement list / arrays / zero specification', dict(info, call=k), found_input=True)
                     if not warm:
                         fresh = FactoredInference(dom, iters=iters, structural_zeros=copy.deepcopy(zeros), warm_start=False)
-                        ref = answers(fresh.estimate([infgen.spelled(m) for m in ms], total=total, engine=engine), attrs, queries)
+                        ref = answers(fresh.estimate([respell(infgen.spelled(m), m) for m in ms], total=total, engine=engine), attrs, queries)
                         if not same(now, ref, exact):
                             chk.violation(dict(kind='history-dependence', engine=engine), 'call %d (%s) on a used estimator differs from a fresh estimator with the same arguments' % (k, engine),
                                           dict(info, call=k, used=[x.tolist() for x in now][:2], fresh=[x.tolist() for x in ref][:2]), found_input=True)
@@ -130,6 +158,15 @@ def main(chk):
                     Lw = infgen.loss_of_answers(prob, lambda pr: mw.project(pr).datavector())
                     Lc = infgen.loss_of_answers(prob, lambda pr: mc.project(pr).datavector())
                     chk.case((h, 'warm-final'), True); chk.count('warm.final')
+                    leaked = None
+                    for zcl, zcells in zeros.items():
+                        tz = np.asarray(mw.project(tuple(zcl)).values, dtype=float)
+                        for cell in zcells:
+                            if float(tz[tuple(cell)]) > 1e-12 * float(mw.total):
+                                leaked = (zcl, cell, float(tz[tuple(cell)]))
+                    if leaked:
+                        chk.violation(dict(kind='warm-start-optimum', zeros='lost'), 'warm-started estimation puts mass %.4g on the structurally impossible cell %s=%s (the cold start has none): a different feasible set, hence a different optimum' % (leaked[2], ''.join(leaked[0]), list(leaked[1])),
+                                      dict(info, loss_warm=Lw, loss_cold=Lc), found_input=True)
                     if Lw > Lc + 5e-2 * max(1.0, Lc):
                         chk.violation(dict(kind='warm-start-optimum'), 'warm-started estimation reaches loss %.6g, a cold start on the same final list %.6g' % (Lw, Lc), dict(info, loss_warm=Lw, loss_cold=Lc), found_input=True)
         except Exception as e:
